@@ -36,7 +36,7 @@ NormV(v) == IF v = "" THEN "empty" ELSE IF IsBit(v) THEN v ELSE "text"
 StartsBlank(t) == t # "" /\ IsBlank(Char(t, 1))
 EndsBlank(t) == t # "" /\ IsBlank(Char(t, Len(t)))
 \* which rule of the manual is at stake for node nd whose parameters have the values vs
-ArgClass(nd, vs) ==
+ArgClass(nd, vs, ctx) ==
     IF nd.k = "gx" /\ nd.n \notin ArbitraryContentOps /\ \E j \in 1..Len(vs) : HasSub(vs[j], ",")
         THEN "comma-in-argument"          \* a nested value containing "," stays one parameter ($<COMMA>)
     ELSE IF \/ nd.k = "gx" /\ Len(vs) > 0 /\ (StartsBlank(vs[1]) \/ EndsBlank(vs[Len(vs)]))
@@ -47,12 +47,17 @@ ArgClass(nd, vs) ==
     ELSE IF nd.k = "gx" /\ nd.n \in VersionOps /\ Len(vs) = 2
             /\ ~(IsPlainVersion(vs[1]) /\ IsPlainVersion(vs[2]) /\ Len(VerComps(vs[1])) = Len(VerComps(vs[2])))
         THEN "omitted-or-nonnumeric-component"
+    ELSE IF nd.k = "gx" /\ nd.n \in FileOps /\ Len(vs) = 1 /\ HasTarget(ctx, vs[1])
+            /\ LET ps == ctx.targets[vs[1]]
+                   want == "IMPORTED_LOCATION_" \o (IF ctx.debug THEN "DEBUG" ELSE "RELEASE")
+               IN ~NonEmptyProp(ps, want) /\ NonEmptyProp(ps, "IMPORTED_LOCATION") /\ "IMPORTED_CONFIGURATIONS" \in DOMAIN ps
+        THEN "location-without-configuration-comes-before-other-configurations"
     ELSE "plain"
 
 NoBad == <<>>
-MkBad(clause, nd, vs, exp, got) ==
+MkBad(clause, nd, vs, ctx, exp, got) ==
     <<[clause |-> clause, op |-> (IF nd.k = "cond" THEN "cond" ELSE nd.n), arity |-> Len(nd.a),
-       cls |-> ArgClass(nd, vs), exp |-> NormV(exp), got |-> got]>>
+       cls |-> ArgClass(nd, vs, ctx), exp |-> NormV(exp), got |-> got]>>
 
 RECURSIVE DiagP(_, _), DiagN(_, _)
 \* [r |-> result prescribed by the rule book, bad |-> <<>> or <<description of the innermost wrong expression>>]
@@ -64,10 +69,10 @@ DiagN(nd, ctx) ==
              vs == Vals(rs)
          IN IF \E j \in 1..Len(subs) : subs[j].bad # NoBad
             THEN [r |-> r, bad |-> subs[CHOOSE j \in 1..Len(subs) : subs[j].bad # NoBad /\ \A h \in 1..(j - 1) : subs[h].bad = NoBad].bad]
-            ELSE IF Crashed(nd.x) THEN [r |-> r, bad |-> MkBad("NoCrash", nd, vs, "", nd.x)]
+            ELSE IF Crashed(nd.x) THEN [r |-> r, bad |-> MkBad("NoCrash", nd, vs, ctx, "", nd.x)]
             ELSE IF r.e # "" THEN [r |-> r, bad |-> NoBad]              \* the manual prescribes an error: value not judged
-            ELSE IF nd.x # "" THEN [r |-> r, bad |-> MkBad("ValueNotError", nd, vs, r.v, nd.x)]
-            ELSE IF nd.o # r.v THEN [r |-> r, bad |-> MkBad("Value", nd, vs, r.v, NormV(nd.o))]
+            ELSE IF nd.x # "" THEN [r |-> r, bad |-> MkBad("ValueNotError", nd, vs, ctx, r.v, nd.x)]
+            ELSE IF nd.o # r.v THEN [r |-> r, bad |-> MkBad("Value", nd, vs, ctx, r.v, NormV(nd.o))]
             ELSE [r |-> r, bad |-> NoBad]
 DiagP(p, ctx) ==
     IF p = <<>> THEN [r |-> Ok(""), bad |-> NoBad]
